@@ -208,6 +208,9 @@ pub enum TyperError {
     /// Default template arguments are not implemented for function templates
     DefaultTemplateArgumentNotSupported(SourceLocation),
 
+    /// A template value parameter was used in a parameter type, return type or default value
+    TemplateValueInSignature(SourceLocation),
+
     /// A template argument was required but was not provided
     TemplateArgumentMissing(SourceLocation, Option<Located<String>>),
 
@@ -990,6 +993,16 @@ impl CompileError for TyperExternalError {
                     write!(
                         f,
                         "default template arguments are not supported on functions"
+                    )
+                },
+                *loc,
+                Severity::Error,
+            ),
+            TyperError::TemplateValueInSignature(loc) => w.write_message(
+                &|f| {
+                    write!(
+                        f,
+                        "template value parameters can only be used inside the function body"
                     )
                 },
                 *loc,
